@@ -232,6 +232,8 @@ for _ in range(N // 2):
 bit_freq_check("format 4 block tail", rows)
 stats["format4_block"] = N // 2
 # ---------------------------------------------------------------- TR-31 key padding
+consumption = {}     # (version, padding length) -> {OS bytes drawn: calls}
+one_byte = {}
 for v in "ABCD":
     bs = 16 if v == "D" else 8
     groups = {}
@@ -249,6 +251,8 @@ for v in "ABCD":
         if int.from_bytes(clear[:2], "big") != 8 * kl or clear[2:2 + kl] != key:
             viol.append({"what": "TR-31 %s: clear key data does not start with length + key" % v})
         derivation["checked"]["tr31"] += 1
+        consumption.setdefault((v, len(pad)), {}).setdefault(drawn, 0)
+        consumption[(v, len(pad))][drawn] += 1
         if pad != LAST[0] and pad not in LAST[0] and len(derivation["mismatch"]) < 20:
             derivation["mismatch"].append({"what": "TR-31 %s: the key padding is not the OS bytes drawn in the call (model: tape = pad, verbatim)" % v,
                                            "os_bytes": LAST[0].hex(), "pad": pad.hex(), "key_len": kl, "mask": mask, "algorithm": alg})
@@ -266,11 +270,28 @@ for v in "ABCD":
         if len(pad) >= bs:
             groups.setdefault(("aligned" if aligned else "ordinary", "tail%d" % bs), []).append(pad[-bs:])
         groups.setdefault(("all", "tail1"), []).append(pad[-1:])
+    # one-byte paddings (2 + key length one short of a block, no masking): every extra draw for the same padding length is
+    # a data-dependent redraw (uniform bytes need no rejection sampling) and removes values from the fill
+    for _ in range(max(1500, N // 2)):
+        kbpk, key = gen.randbytes(16), gen.randbytes(13)
+        kb, drawn, same = monitored(tr31.wrap, kbpk, v + "0000P0HE00N0000", key, None)
+        clear = o.tr31_clear(kbpk, kb)
+        pad = clear[2 + 13:]
+        consumption.setdefault((v, len(pad)), {}).setdefault(drawn, 0)
+        consumption[(v, len(pad))][drawn] += 1
+        one_byte.setdefault(v, []).append(pad)
+        if pad != LAST[0] and pad not in LAST[0] and len(derivation["mismatch"]) < 20:
+            derivation["mismatch"].append({"what": "TR-31 %s: the one-byte key padding is not an OS byte drawn in the call" % v, "os_bytes": LAST[0].hex(), "pad": pad.hex()})
+    stats["tr31_%s_one_byte_pad" % v] = max(1500, N // 2)
     for gk, rows in groups.items():
         bit_freq_check("TR-31 %s key padding %s" % (v, gk), rows)
         byte_stat_check("TR-31 %s key padding %s" % (v, gk), rows)
         byte_cover_check("TR-31 %s key padding %s" % (v, gk), rows)
     stats["tr31_" + v] = N
+for (v, plen), by_drawn in sorted(consumption.items()):
+    if len(by_drawn) > 1:
+        derivation["mismatch"].append({"what": "TR-31 %s: the number of OS bytes drawn for a padding of %d bytes varies between calls %r - a data-dependent "
+                                               "redraw of the padding (the model consumes exactly the padding length, once)" % (v, plen, dict(by_drawn))})
 # ---------------------------------------------------------------- freshness of sequences
 for name, thunk in call_sequences():
     a, b = thunk(), thunk()
